@@ -187,6 +187,14 @@ def _run_base(ctx):
             seen['coll'] = True
             ctx.inst('R14.4', NB + ':set_notebook_diff_ignores', 'collection -> %s' % (repo.norm(st[0]) if st else '?'), ok,
                      'key filter wraps the differ currently installed for the path' if ok else 'key filter does not wrap the current differ', node)
+            # a key filter that is unwrapped (so that filters do not nest) must hand its keys on: otherwise only the last list installed survives
+            unwraps = [x for b_ in body for x in ast.walk(b_) if isinstance(x, ast.Attribute) and x.attr == 'inner_differ']
+            if unwraps and st:
+                keeps = depends_on(si, st[0].value.args[1], lambda x: isinstance(x, ast.Attribute) and x.attr == 'ignore_keys', sdefs) is not None
+                ctx.inst('R14.4', NB + ':set_notebook_diff_ignores', 'unwrapped key filter: its keys %s' % ('are merged into the new filter' if keeps else 'are dropped'), keeps,
+                         'key lists installed for one path by different sources stack' if keeps else
+                         'an existing key filter is unwrapped but its keys are not carried over: the details category (execution_count) and a list-valued Ignore entry for the same '
+                         'path no longer combine -- whichever was installed first shows up again', unwraps[0])
     ok = len(seen) == 3 and bool(orelse) and isinstance(orelse[-1], ast.Raise)
     ctx.inst('R14.4', NB + ':set_notebook_diff_ignores', 'arms %s + else raise' % sorted(seen), ok,
              'three value kinds handled, anything else rejected' if ok else 'an ignore value kind is unhandled or silently accepted', chain)
